@@ -175,10 +175,98 @@ func (w *World) phase() {
 	}
 }
 
-// finish runs the end-of-run oracles.
+// finish runs the end-of-run phases and oracles.
 func (w *World) finish() {
 	w.stopClients = true
+	w.finishing = true
+	if len(w.viol) >= w.maxViol {
+		return
+	}
+	// 1. let the clients finish their outstanding calls (bounded)
+	start := w.sim.Steps
+	w.idleRounds = 0
+	w.loop(func() bool { return w.cl.active == 0 || w.sim.Steps-start > 4000 || w.idleRounds > 3 }, false)
 	w.or.finalChecks()
+	// a call that is still outstanding on a running server long after everything is quiet
+	bound := w.convergenceBound()
+	for _, c := range w.cl.calls {
+		if c.ReturnSeq == 0 && !c.Crashed && w.now()-c.InvokeAt > bound && w.or.tainted == "" {
+			n := w.nodes[c.Node]
+			if n.inc != nil && n.inc.n == c.Inc && n.inc.alive && !n.inc.shutdown {
+				v := w.violate("C17", "C17/future-unresolved-while-running", "%s on s%d#%d issued %v ago has not resolved although the server is running and all faults stopped long ago",
+					c.Kind, c.Node, c.Inc, (w.now() - c.InvokeAt).Round(time.Millisecond))
+				v.Facts["kind"] = c.Kind
+			}
+		}
+	}
+	if !w.cfg.ShutdownAtEnd {
+		return
+	}
+	// 2. issue one more round of calls, then shut every server down from managed goroutines
+	var incs []*Inc
+	for _, inc := range w.liveIncs() {
+		if !inc.shutdown {
+			incs = append(incs, inc)
+		}
+	}
+	for _, inc := range incs {
+		inc := inc
+		for _, kind := range []string{"apply", "barrier", "verify", "membership", "snapshot", "transfer"} {
+			kind := kind
+			simrt.GoTag("late-call", "", func() { w.cl.do(-1, kind, inc) })
+		}
+	}
+	start = w.sim.Steps
+	k := int64(w.ch.Choose(simrt.SWork, 60))
+	w.idleRounds = 0
+	w.loop(func() bool { return w.sim.Steps-start > k || w.idleRounds > 3 }, false)
+	pending := 0
+	for _, inc := range incs {
+		inc := inc
+		inc.shutdown = true
+		pending++
+		simrt.GoTag("shutdown", "", func() {
+			_ = inc.r.Shutdown().Error()
+			inc.shutdownDone = true
+			pending--
+		})
+	}
+	start = w.sim.Steps
+	w.idleRounds = 0
+	w.loop(func() bool { return pending == 0 || w.sim.Steps-start > 20000 || w.idleRounds > 3 }, false)
+	for _, inc := range incs {
+		if !inc.shutdownDone {
+			w.violate("C17", "C17/shutdown-never-completes", "%s: Shutdown().Error() has not returned", inc.tag)
+		}
+	}
+	// 3. calls made after Shutdown has returned complete at once with ErrRaftShutdown
+	var late []*Call
+	for _, inc := range incs {
+		inc := inc
+		if !inc.shutdownDone {
+			continue
+		}
+		for _, kind := range []string{"apply", "barrier", "verify", "membership", "snapshot", "transfer-any", "restore", "getconfig"} {
+			kind := kind
+			simrt.GoTag("post-shutdown-call", "", func() {
+				if c := w.cl.do(-1, kind, inc); c != nil {
+					c.AfterShutdown = true
+					late = append(late, c)
+				}
+			})
+		}
+	}
+	// 4. run until every goroutine is blocked and stays blocked
+	start = w.sim.Steps
+	w.idleRounds = 0
+	w.loop(func() bool { return w.idleRounds > 3 || w.sim.Steps-start > 20000 }, false)
+	w.or.strandedCheck()
+	for _, c := range late {
+		if c.ReturnSeq != 0 && c.ErrIs != "ErrRaftShutdown" && c.Kind != "getconfig" {
+			v := w.violate("C17", "C17/call-after-shutdown-wrong-result", "%s on s%d after Shutdown() returned gave %q, expected ErrRaftShutdown", c.Kind, c.Node, c.Err)
+			v.Facts["kind"] = c.Kind
+		}
+	}
 }
 
 var _ = io.Discard
